@@ -320,11 +320,14 @@ def r16d(ck, fb):
         if a and a['variant'] == 'ApiTokenSession':
             okk = True
     ck.require(okk, 'R16d', 'block:session-kind', b.where(), 'the token is not looked up as an ApiTokenSession')
-    # token extraction order
-    ht = b.calls(r'auth_middle::header_token$')
-    qs = b.calls(r'serde_urlencoded::from_str')
-    pb = b.calls(r'auth_middle::peek_body_token$')
-    ok_o = len(ht) == 1 and len(qs) == 1 and len(pb) == 1 and cfg.dominates_blocks(b, {ht[0].bb}, qs[0].bb) and cfg.dominates_blocks(b, {qs[0].bb}, pb[0].bb)
+    # token extraction order (in the block itself or in a helper it calls)
+    ok_o = False
+    for b2 in util.region(fb, b):
+        ht = b2.calls(r'auth_middle::header_token$')
+        qs = b2.calls(r'serde_urlencoded::from_str')
+        pb = b2.calls(r'auth_middle::peek_body_token$')
+        if len(ht) == 1 and len(qs) == 1 and len(pb) == 1:
+            ok_o = cfg.dominates_blocks(b2, {ht[0].bb}, qs[0].bb) and cfg.dominates_blocks(b2, {qs[0].bb}, pb[0].bb)
     ck.require(ok_o, 'R16d', 'block:token-order', b.where(), 'token is not extracted in the order header -> query -> body')
 
 
